@@ -50,6 +50,7 @@ func routingMenu(actions []flyt.Action, horizons ...int) func(h *H, c call) []an
 // runFlowChecked runs the (already built) root flow once and checks the
 // outcome, the store log and that Flow.Run agrees.
 func (h *H) runFlowOnce(f *flyt.Flow, label string) {
+	h.closeRef()
 	h.answers, h.calls = nil, nil
 	h.visits = map[*spec]int{}
 	defer func() { h.runNo++; h.hist = append(h.hist, h.traceString()); h.root.flow.foldEdits() }()
@@ -171,19 +172,22 @@ func genC03(tier string) []Scenario {
 	}
 	// ---------------- A1b: the default action connectable too (2 nodes x 3 actions)
 	acts3 := []flyt.Action{"a", "ab", flyt.DefaultAction}
-	for e0 := 0; e0 < 4; e0++ {
-		e0 := e0
+	for e01 := 0; e01 < 16; e01++ {
+		e0, e1 := e01/4, e01%4
 		var h *H
 		body := func() {
 			ns := []*spec{{id: "n0", kind: kLog, n: 1}, {id: "n1", kind: kLog, n: 1}}
 			root := &spec{id: "flow", flow: &flowSpec{start: ns[0], edges: map[*spec]map[flyt.Action]*spec{}}}
 			h = newH(root)
-			h.menu = routingMenu([]flyt.Action{"a", "ab", "", flyt.DefaultAction}, horizon, horizon2)
+			h.menu = routingMenu([]flyt.Action{"a", "ab", "", flyt.DefaultAction}, horizon-1+boolInt(th), horizon2)
 			k := 0
 			for _, from := range ns {
 				for _, a := range acts3 {
 					e := e0
-					if k > 0 {
+					if k == 1 {
+						e = e1
+					}
+					if k > 1 {
 						e = core.Choose(4)
 					}
 					switch e {
@@ -201,7 +205,7 @@ func genC03(tier string) []Scenario {
 				h.runFlowOnce(f, fmt.Sprintf("run %d", r+1))
 			}
 		}
-		out = append(out, Scenario{Name: fmt.Sprintf("tables 2x3(default connectable) entries[0]=%d horizon=%d", e0, horizon), Body: body, Check: stdCheck(func() string {
+		out = append(out, Scenario{Name: fmt.Sprintf("tables 2x3(default connectable) entries[0]=%d entries[1]=%d horizon=%d", e0, e1, horizon), Body: body, Check: stdCheck(func() string {
 			if h == nil {
 				return "?"
 			}
@@ -213,8 +217,8 @@ func genC03(tier string) []Scenario {
 	if th {
 		maxLen, maxMore = 3, 2
 	}
-	for first := 0; first < 12; first++ {
-		first := first
+	for fl := 0; fl < 12*maxLen; fl++ {
+		first, length := fl%12, 1+fl/12
 		var h *H
 		body := func() {
 			ns := []*spec{{id: "n0", kind: kLog, n: 1}, {id: "n1", kind: kLog, n: 1}}
@@ -228,7 +232,7 @@ func genC03(tier string) []Scenario {
 			// connection counts from that moment on, also for the rest of the SAME run
 			midRun := 0
 			h.onCall = func(hh *H, c call) {
-				if c.ph != pPost || midRun >= 1 || core.Choose(2) == 0 {
+				if c.ph != pPost || midRun >= 1 || hh.runNo > 0 || core.Choose(2) == 0 {
 					return
 				}
 				midRun++
@@ -243,7 +247,6 @@ func genC03(tier string) []Scenario {
 				f.Connect(real[from], a, toNode)
 				root.flow.edits = append(root.flow.edits, edgeEdit{at: len(hh.answers) + 1, from: ns[from], action: a, to: toSpec})
 			}
-			length := 1 + core.Choose(maxLen)
 			chain := f
 			for i := 0; i < length; i++ {
 				op := first
@@ -282,7 +285,7 @@ func genC03(tier string) []Scenario {
 			}
 			h.runFlowOnce(f, "run 2")
 		}
-		out = append(out, Scenario{Name: fmt.Sprintf("connect-histories first-op=%d maxlen=%d", first, maxLen), Body: body, Check: stdCheck(func() string {
+		out = append(out, Scenario{Name: fmt.Sprintf("connect-histories first-op=%d length=%d", first, length), Body: body, Check: stdCheck(func() string {
 			if h == nil {
 				return "?"
 			}
